@@ -104,12 +104,12 @@ func c10One(c *mc.Ctx, frame []byte, k c10Case) {
 		if a := mcache.VerifTakeAudit(); len(a) > 0 {
 			bad("pool-audit:"+auditClass(a[0]), "after Decode and Release on this frame the buffer pool reports: %v", a)
 		}
+		// the reader's buffers are recycled and the input reused: decoded maps must not change
 		if k.Stream || k.Pre > 0 {
-			// the reader's buffers are recycled and the input reused: decoded maps must not change
 			mcache.VerifCoTenant(true)
-			for i := range src {
-				src[i] = 0xEE
-			}
+		}
+		for i := range src {
+			src[i] = 0xEE
 		}
 		if !k.Stream {
 			g2, e2 := ttheader.DecodeFromBytes(context.Background(), frame)
@@ -303,6 +303,7 @@ func c10Run(c *mc.Ctx) {
 		{Kind: 0x01},
 		{Kind: 0x10, Int: []ref.TTHIntKV{{K: 1, V: "a"}, {K: 0xffff, V: ""}}},
 		{Kind: 0x10, Int: []ref.TTHIntKV{{K: 1, V: "b"}}},
+		{Kind: 0x10, Int: []ref.TTHIntKV{{K: 27, V: "1"}, {K: 26, V: "4"}, {K: 28, V: "2"}, {K: 0, V: "3"}}}, // well-known int keys (frame type ...) with their usual one-character values
 		{Kind: 0x01, Str: [][2]string{{ttheader.HeaderTransPerfTRecvEnd, "e"}, {ttheader.HeaderTransPerfTRecvStart, "s"}, {ttheader.HeaderIDLServiceName, "svc"}, {ttheader.HeaderTransRemoteAddr, "1.2.3.4"}, {ttheader.HeaderTransToCluster, "c"}, {ttheader.HeaderTransToIDC, "i"}, {ttheader.HeaderTransPerfTConnStart, "1"}, {ttheader.HeaderTransPerfTConnEnd, "2"}, {ttheader.HeaderTransPerfTSendStart, "3"}, {ttheader.HeaderConnectionReadyToReset, "4"}, {ttheader.HeaderProcessAtTime, "5"}}},
 		{Kind: 0x11, ACL: "tok1"},
 		{Kind: 0x11, ACL: ""},
@@ -378,7 +379,7 @@ func c10Run(c *mc.Ctx) {
 		c10One(c, f, c10Case{Desc: fmt.Sprintf("%d transform ids", len(tr))})
 	}
 	c.Sample("sections", c10Case{Hex: hex.EncodeToString(ref.TTHBuildRaw(0x0102, -2, 4, nil, []ref.TTHSection{secs[5], secs[7], secs[0]}, 100, -1)), Desc: "acl, padding byte, string KV"})
-	c.Done("all sequences of <= 3 sections over 9 section variants (incl. every well-known transport key) x 9 total-length values, bytes- and stream-backed, with every truncation and byte perturbation of each valid frame")
+	c.Done("all sequences of <= 3 sections over 10 section variants (incl. every well-known transport key) x 9 total-length values, bytes- and stream-backed, with every truncation and byte perturbation of each valid frame")
 }
 
 func init() {
